@@ -296,7 +296,7 @@ func c13Walk(r *mon.Run, caseID string, g *rand.Rand, cfg asNodeCfg, steps []int
 }
 
 func TestC13(t *testing.T) {
-	r := mon.Start("C13", "exploration")
+	r := mon.Start("C13", "fault_enumeration")
 	r.Rule("(a) the real AggSender over real stores and the model Agglayer; alphabet = C02's plus {restart, process death before submit / after the Agglayer recorded the certificate and before it is stored / at the next Agglayer call, " +
 		"certificate database deleted, epoch tick with the k-th statement of a storage transaction failing followed by a restart, database replaced by an older copy, Agglayer forgets / re-identifies its last certificate}; " +
 		"all sequences up to depth D after a prefix, then PRNG walks; x RetryCertAfterInError x KeepCertificatesHistory x flow; oracles: after every restart without contradiction the node does not refuse and its last record is the Agglayer's last certificate, " +
